@@ -54,6 +54,7 @@ func (c *Case) ModuleMap() *ugo.ModuleMap {
 		mm.AddBuiltinModule("strings", ugostrings.Module)
 		mm.AddBuiltinModule("time", ugotime.Module)
 		mm.AddBuiltinModule("vmod", VMod())
+		AddObjMods(mm)
 	}
 	return mm
 }
@@ -73,9 +74,27 @@ func VMod() map[string]ugo.Object {
 		"em":   ugo.Map{}, // EMPTY containers must be copied per VM as well
 		"ea":   ugo.Array{},
 		"eb":   ugo.Bytes{},
+		"esm":  &ugo.SyncMap{Value: ugo.Map{}}, // empty but not nil
 		"wrap": ugo.Map{"inner": ugo.Map{}, "list": ugo.Array{ugo.Map{}}},
 		"inc":  &ugo.Function{Name: "inc", Value: func(args ...ugo.Object) (ugo.Object, error) { return ugo.Int(len(args) + 1), nil }},
 	}
+}
+
+// ObjImportable is a module whose Import returns one object that is NOT a map of attributes: an array,
+// bytes or a sync-map handed out as the module value itself.  OpStoreModule must give every VM its
+// own Copy() of it as well.
+type ObjImportable struct{ New func() ugo.Object }
+
+// Import implements ugo.Importable.
+func (o ObjImportable) Import(string) (any, error) { return o.New(), nil }
+
+// AddObjMods registers the object modules: "objarr", "objbytes", "objsync" and "objmods" (a source
+// module that imports the three and returns them in a map).
+func AddObjMods(mm *ugo.ModuleMap) {
+	mm.Add("objarr", ObjImportable{func() ugo.Object { return ugo.Array{ugo.Int(1), ugo.Int(2), ugo.Int(3)} }})
+	mm.Add("objbytes", ObjImportable{func() ugo.Object { return ugo.Bytes{1, 2, 3} }})
+	mm.Add("objsync", ObjImportable{func() ugo.Object { return &ugo.SyncMap{Value: ugo.Map{"k": ugo.Int(0)}} }})
+	mm.AddSourceModule("objmods", []byte(`return {arr: import("objarr"), by: import("objbytes"), sm: import("objsync")}`))
 }
 
 // Compile compiles the case with the real compiler.
@@ -395,6 +414,8 @@ func builtinContainers(r *gen.Rand) *Case {
 		"v.em[s] = n + 1\nout = append(out, len(v.em), v.em[s])\n",
 		"v.wrap.inner[s] = n\nv.wrap.list[0].k = n + 2\nout = append(out, len(v.wrap.inner), v.wrap.list[0].k)\n",
 		"v.ea = append(v.ea, n)\nout = append(out, v.ea)\n",
+		"v.esm[s] = n + 1\nout = append(out, len(v.esm), v.esm[s])\n",
+		"if true {\no := import(\"objmods\")\no.arr[0] += n + 1\no.by[1] = n\no.sm[s] = n\nout = append(out, o.arr, o.by, len(o.sm))\n}\n",
 		"w := import(\"vmod\")\nw.arr[1] = n + 5\nout = append(out, v.arr[1])\n",
 	}
 	k := 2 + r.Intn(5)
@@ -404,7 +425,7 @@ func builtinContainers(r *gen.Rand) *Case {
 	if r.Bool() {
 		sb.WriteString("for i := 0; i < 50; i++ { v.arr[1] += 1; v.by[1] = (v.by[1] + 1) % 200; v.m.k += 1 }\n")
 	}
-	sb.WriteString("out = append(out, v.n, v.arr, v.m.k, v.by, v.deep.a[0].x, v.deep.a[1], v.sm.k, v.inc(1, 2), len(v.em), len(v.wrap.inner), len(v.wrap.list[0]))\nreturn out\n")
+	sb.WriteString("out = append(out, v.n, v.arr, v.m.k, v.by, v.deep.a[0].x, v.deep.a[1], v.sm.k, v.inc(1, 2), len(v.em), len(v.esm), len(v.wrap.inner), len(v.wrap.list[0]))\nreturn out\n")
 	return &Case{Family: "builtin-containers", Src: sb.String(), Builtin: true}
 }
 
